@@ -57,7 +57,7 @@ def check(ctx):
 
 
 # ------------------------------------------------------------------------------------------------
-def check_shape(ctx, tu, maxlen):
+def check_shape(ctx, tu, maxlen, rule='C01.S', only_laws=None):
     by_cls = {}
     for f in tu.fns:
         if f.cls == 'CallbackListBase' and f.name in OPS and f.kind == 'method':
@@ -65,12 +65,13 @@ def check_shape(ctx, tu, maxlen):
     total = 0
     done = 0
     for clsq, fs in sorted(by_cls.items()):
-        if not all(k in fs for k in OPS):
+        need = OPS if only_laws is None else ('append', 'prepend', 'insert')
+        if not all(k in fs for k in need):
             continue
         if done >= 3:
             break       # three instantiations per unit are enough: the routines do not depend on the policies
         done += 1
-        total += shape_instance(ctx, tu, fs, maxlen)
+        total += shape_instance(ctx, tu, fs, maxlen, rule, only_laws)
     return total
 
 
@@ -78,7 +79,7 @@ def names(seq):
     return [x.name for x in seq] if not isinstance(seq, str) else seq
 
 
-def shape_instance(ctx, tu, fs, maxlen):
+def shape_instance(ctx, tu, fs, maxlen, rule='C01.S', only_laws=None):
     pp = S.PointerProgram(tu)
     fails = {}    # (op, law) -> description
     count = [0]
@@ -129,6 +130,8 @@ def shape_instance(ctx, tu, fs, maxlen):
             new = L_.fresh[-1] if L_.fresh else None
             expect('insert', 'expired handle appends', not isinstance(seq, str) and seq == nodes + [new] and S.well_formed(L_) is None,
                    'length %d: got %s' % (n, names(seq)))
+            if only_laws is not None and ('remove' not in fs or 'ownsHandle' not in fs):
+                continue
             # remove at every position, then everything again through the handle of the removed (still alive) node
             for i in range(n):
                 L_, nodes = S.build_list(n)
@@ -174,7 +177,7 @@ def shape_instance(ctx, tu, fs, maxlen):
             o = run('ownsHandle', L_, S.Handle(None))
             expect('ownsHandle', 'expired handle', o is False, 'length %d' % n)
     except S.Unsupported as e:
-        ctx.broken_later('C01.S: the link routines use a construct outside the pointer-program fragment: %s' % e)
+        ctx.broken_later(rule + ': the link routines use a construct outside the pointer-program fragment: %s' % e)
     except S.NullDeref as e:
         fails[('(any)', 'no null dereference')] = str(e)
     laws = [('append', 'sequence'), ('append', 'well-formed'), ('append', 'handle'), ('prepend', 'sequence'), ('prepend', 'well-formed'),
@@ -184,11 +187,15 @@ def shape_instance(ctx, tu, fs, maxlen):
             ('remove', 'second remove through the same handle is inert'), ('remove', 'expired handle'), ('ownsHandle', 'member'),
             ('ownsHandle', 'foreign handle'), ('ownsHandle', 'removed handle'), ('ownsHandle', 'expired handle')]
     for (op, law) in laws:
+        if only_laws is not None and law not in only_laws:
+            continue
+        if op not in fs:
+            continue
         f = fs[op]
-        ctx.ob('C01.S', f, '%s: %s (all configurations up to length %d)' % (op, law, maxlen), (op, law) not in fails,
+        ctx.ob(rule, f, '%s: %s (all configurations up to length %d)' % (op, law, maxlen), (op, law) not in fails,
                detail='fails for %s' % fails.get((op, law)), key_detail='%s %s' % (op, law))
     if ('(any)', 'no null dereference') in fails:
-        ctx.ob('C01.S', fs['append'], 'no link routine dereferences a null pointer', False, detail=fails[('(any)', 'no null dereference')],
+        ctx.ob(rule, fs['append'], 'no link routine dereferences a null pointer', False, detail=fails[('(any)', 'no null dereference')],
                key_detail='null dereference')
     return count[0]
 
